@@ -280,6 +280,15 @@ func TestC20(t *testing.T) {
 		return
 	}
 	var pool []Case
+	// a caller that treats the exported host list as its own (filters it in place, rewrites entries for display) must
+	// not change what Resolve accepts afterwards
+	for _, h := range [][]string{deeplinks.ReservedHosts(), deeplinks.ReservedHosts()} {
+		for i := range h {
+			h[i] = "evil.example"
+		}
+		_ = append(h[:0], "example.com")
+	}
+	run.Class("exported-host-list-edited-by-caller", 1)
 	t.Run("enumerated", func(t *testing.T) {
 		if run.Shard != 0 {
 			return
